@@ -19,10 +19,10 @@ import (
 type Class int
 
 const (
-	Word    Class = iota // needs a gap to its neighbours unless the neighbour is a bracket
-	Bracket              // '<', '>', size, quoted string, '.'
-	Header               // header tokens: always separated by a gap
-	HeaderKW             // wait bit and direction keywords: like Header, but may stand directly before '<' or '.'
+	Word     Class = iota // needs a gap to its neighbours unless the neighbour is a bracket
+	Bracket               // '<', '>', size, quoted string, '.'
+	Header                // header tokens: always separated by a gap
+	HeaderKW              // wait bit and direction keywords: like Header, but may stand directly before '<' or '.'
 )
 
 type Tok struct {
